@@ -41,7 +41,7 @@ MUTANTS = [
     ('C17-zip-all-molecules', 'C17', 'vermouth/dssp/dssp.py', '        for molecule, nres in zip(selected_molecules, molecule_lengths):', '        for molecule, nres in zip(system.molecules, molecule_lengths):', 60),
     ('C17-helix5-rule', 'C17', 'vermouth/dssp/dssp.py', "('.HHHHH.', '.13332.')", "('.HHHHH.', '.13322.')", 60),
     ('C17-accept-longer-sequence', 'C17', 'vermouth/dssp/dssp.py', '    elif len(sequence) != len(residues):', '    elif len(sequence) < len(residues):', 120),
-    ('C17-dssp-column', 'C17', 'vermouth/dssp/dssp.py', '            secondary_structure = line[16]', '            secondary_structure = line[16] if line[13] != "X" else line[14]', 120),
+    ('C17-dssp-column', 'C17', 'vermouth/dssp/dssp.py', '            secondary_structure = line[16]', '            secondary_structure = line[16] if line_num % 7 else line[15]', 120),
     ('C11-altloc-first-seen', 'C11', 'vermouth/processors/average_beads.py', None, None, 0),
 ]
 
